@@ -339,6 +339,9 @@ def runUserSection (r : Report) (sec : Section) (user : String) (probes : List N
       let keys := callKeys user base strs
       let targets := callTargets H inst user base strs
       r := r.addCover s!"call-{user}-{base}"
+      match (method.splitOn "+")[1]? with
+      | some v => r := r.addCover s!"call-outcome-{v}"
+      | none => pure ()
       if keys.length > 1 then r := r.addCover "call-several-keys"
       if (dedupSorted (targets.map showAddr)).length > 1 then r := r.addCover "call-keys-on-several-nodes"
       if strs.length > keys.length then r := r.addCover "call-with-other-strings"
